@@ -6,15 +6,16 @@ use crate::engine::*;
 use crate::inputs::*;
 use crate::machine::*;
 use crate::mem::{self, AllocCtl};
+use crate::optree::sequences;
 use std::ffi::CString;
 
 pub const INFO: CheckInfo = CheckInfo {
     prop: "C18",
     level: "fault_enumeration",
-    rule: "fault enumeration: a set of API call histories (init/calls/end, copy mid-stream with both streams continued, reset, params, dictionary, failed init, inflateBackInit/End, several streams sharing one allocator; gzopen/gzdopen -> gzbuffer -> read|write|getc|ungetc|puts|seek|flush -> close) is first run with a counting allocator to learn the number N of allocation requests, then re-run once for EVERY k in [0,N) with only request k failing and once for every k with all requests from k on failing. Oracle: the call during which a request failed reports Z_MEM_ERROR (a NULL gz handle / error return for gz calls); End on the faulted z_stream is safe and re-initialisation works; at the end every block has been released exactly once with the right opaque and nothing else was released (guard-paged allocator, freed blocks unmapped so any use-after-free faults; byte-balanced global allocator for the gz layer); a bystander stream created before the fault produces the same output as when run alone. distinct_nontrivial = distinct (history, fault plan, per-step status) outcomes.",
+    rule: "fault enumeration: a set of API call histories (init/calls/end, copy mid-stream with both streams continued, reset, params, dictionary, failed init, inflateBackInit/End, several streams sharing one allocator; gzopen/gzdopen -> gzbuffer -> read|write|getc|ungetc|puts|seek|flush -> close, reading a gzip / plain / empty / one-byte / two-member / garbage-trailed / truncated file, writing in modes wb / ab / wT / wb9f) is first run with a counting allocator to learn the number N of allocation requests, then re-run once for EVERY k in [0,N) with only request k failing and once for every k with all requests from k on failing. Oracle: the call during which a request failed reports Z_MEM_ERROR (a NULL gz handle / error return for gz calls); End on the faulted z_stream is safe and re-initialisation works; at the end every block has been released exactly once with the right opaque and nothing else was released (guard-paged allocator, freed blocks unmapped so any use-after-free faults; byte-balanced global allocator for the gz layer); a bystander stream created before the fault produces the same output as when run alone. distinct_nontrivial = distinct (history, fault plan, per-step status) outcomes.",
     assumptions: &["histories outside the enumerated set and simultaneous multiple independent failures other than 'all from k on' are not covered", "the gz layer uses the Rust global allocator, which the harness wraps (counting, failing, byte balance) for the duration of a history"],
-    bound_quick: "about 70 C-API histories and 40 gz histories, every fail-at-k and fail-from-k",
-    bound_thorough: "the same histories with more configurations and longer call lists",
+    bound_quick: "about 70 C-API histories; gz: every history of <= 2 operations over 10 read / 9 write operations x 7 file contents / 4 open modes x {by fd, by path}; every fail-at-k and fail-from-k",
+    bound_thorough: "gz histories of <= 3 operations; the same histories with more configurations and longer call lists",
 };
 
 #[derive(Clone, Copy, Debug, PartialEq, Eq)]
@@ -493,8 +494,12 @@ fn run_gz(write_mode: bool, by_path: bool, ops: &[G], fail_at: Option<u64>, fail
                     G::Write(_) => r <= 0,
                     G::Direct => true,
                 };
-                if !ok && err.is_none() {
-                    err = Some("a gz call during which an allocation failed reported success");
+                // ... through its return value or, when it still delivered data (e.g. the bytes decoded before a
+                // truncated member's end, where only the allocation of the error text failed), through gzerror
+                let mut errnum = 0;
+                let _ = Rs::gzerror(f, &mut errnum);
+                if !ok && errnum != Z_MEM_ERROR && err.is_none() {
+                    err = Some("a gz call during which an allocation failed reported success and gzerror does not report Z_MEM_ERROR");
                 }
             }
         }
@@ -577,48 +582,45 @@ pub fn run(ctx: &mut Ctx) {
         }
     }
     // gz layer
-    let gz_file = packed_gz.clone();
     let payload = text(7, 5000);
     let mut buf = vec![0u8; 8192];
-    let read_hist: Vec<(&str, Vec<G>)> = vec![
-        ("open-close", vec![]),
-        ("read", vec![G::Read(100), G::Read(5000)]),
-        ("buffer8-read", vec![G::Buffer(8), G::Read(1), G::Read(300)]),
-        ("getc-ungetc", vec![G::Getc, G::Ungetc, G::Getc]),
-        ("ungetc-first", vec![G::Ungetc, G::Read(10)]),
-        ("gets", vec![G::Gets, G::Gets]),
-        ("seek-read", vec![G::Read(10), G::Seek(500), G::Read(10), G::Rewind, G::Read(10)]),
-        ("direct", vec![G::Direct, G::Read(10)]),
-        ("buffer-after-read", vec![G::Read(1), G::Buffer(64)]),
-    ];
-    let write_hist: Vec<(&str, Vec<G>)> = vec![
-        ("open-close", vec![]),
-        ("write", vec![G::Write(100), G::Write(5000)]),
-        ("buffer8-write", vec![G::Buffer(8), G::Write(1), G::Write(300)]),
-        ("putc-puts", vec![G::Putc, G::Puts, G::Putc]),
-        ("flush", vec![G::Write(10), G::Flush, G::Write(10)]),
-        ("seek-write", vec![G::Write(10), G::Seek(100), G::Write(10)]),
-        ("setparams", vec![G::Write(10), G::SetParams, G::Write(10)]),
-        ("direct", vec![G::Direct, G::Write(10)]),
-    ];
+    // every history of up to 2 (thorough: 3) operations over the read / write alphabets
+    let depth = if ctx.quick() { 2 } else { 3 };
+    let ralpha = [G::Buffer(8), G::Read(1), G::Read(300), G::Read(5000), G::Getc, G::Ungetc, G::Gets, G::Seek(500), G::Rewind, G::Direct];
+    let walpha = [G::Buffer(8), G::Write(1), G::Write(5000), G::Putc, G::Puts, G::Flush, G::Seek(100), G::SetParams, G::Direct];
+    let mut read_hist: Vec<(String, Vec<G>)> = vec![("r".into(), vec![])];
+    sequences(&ralpha, depth, |q| read_hist.push((format!("r{}", read_hist.len()), q.to_vec())));
+    read_hist.push(("seek-read".into(), vec![G::Read(10), G::Seek(500), G::Read(10), G::Rewind, G::Read(10)]));
+    let mut write_hist: Vec<(String, Vec<G>)> = vec![("w".into(), vec![])];
+    sequences(&walpha, depth, |q| write_hist.push((format!("w{}", write_hist.len()), q.to_vec())));
+    write_hist.push(("setparams".into(), vec![G::Write(10), G::SetParams, G::Write(10), G::Flush, G::Write(300)]));
     let dir = std::env::temp_dir();
+    // what the file holds when reading (the inflate state is set up before the format is known, and is used or
+    // not depending on the content), and how the file is opened when writing
+    let mut two = packed_gz.clone();
+    two.extend_from_slice(&packed_gz);
+    let mut trailing = packed_gz.clone();
+    trailing.extend_from_slice(b"trailing garbage after the member");
+    let read_files: Vec<(&str, Vec<u8>)> = vec![("gzip", packed_gz.clone()), ("plain", text(5, 3000)), ("empty", vec![]), ("one byte 1f", vec![0x1f]), ("two members", two), ("gzip+garbage", trailing), ("truncated gzip", packed_gz[..packed_gz.len() / 2].to_vec())];
+    let write_modes: Vec<(&str, Vec<u8>)> = vec![("wb", vec![]), ("ab", vec![]), ("wT", vec![]), ("wb9f", vec![])];
     for (write_mode, hists) in [(false, &read_hist), (true, &write_hist)] {
         for (hname, ops) in hists.iter() {
+          for (vname, gz_file) in if write_mode { write_modes.iter() } else { read_files.iter() } {
             for by_path in [false, true] {
-                let mode = CString::new(if write_mode { "wb" } else { "rb" }).unwrap();
+                let mode = CString::new(if write_mode { *vname } else { "rb" }).unwrap();
                 let shard = match ctx.mode {
                     Mode::Worker { shard, .. } => shard,
                     _ => 99,
                 };
-                let path_str = dir.join(format!("zverif-c18-{}-{}-{}-{}.gz", std::process::id(), shard, hname, write_mode as u8));
+                let path_str = dir.join(format!("zverif-c18-{}-{}-{}-{}-{}.gz", std::process::id(), shard, hname, write_mode as u8, vname.replace(' ', "_")));
                 let path = CString::new(path_str.to_str().unwrap()).unwrap();
                 let prepare = |p: &std::path::Path| {
                     if by_path && !write_mode {
-                        std::fs::write(p, &gz_file).unwrap();
+                        std::fs::write(p, gz_file).unwrap();
                     }
                 };
                 prepare(&path_str);
-                let base = run_gz(write_mode, by_path, ops, None, None, &gz_file, &path, &mode, &mut buf, &payload);
+                let base = run_gz(write_mode, by_path, ops, None, None, gz_file, &path, &mode, &mut buf, &payload);
                 let n = match &base {
                     Ok(b) => b.requests,
                     Err(_) => 0,
@@ -627,11 +629,11 @@ pub fn run(ctx: &mut Ctx) {
                     let buf_cell = std::cell::RefCell::new(&mut buf);
                     ctx.case(
                         "gz-history",
-                        || format!("gz {} via {} ; {ops:?} ; without faults ({n} allocation requests)", if write_mode { "write" } else { "read" }, if by_path { "gzopen" } else { "gzdopen" }),
+                        || format!("gz {} [{vname}] via {} ; {ops:?} ; without faults ({n} allocation requests)", if write_mode { "write" } else { "read" }, if by_path { "gzopen" } else { "gzdopen" }),
                         |c| {
                             c.exec();
                             prepare(&path_str);
-                            let r = run_gz(write_mode, by_path, ops, None, None, &gz_file, &path, &mode, &mut buf_cell.borrow_mut(), &payload)?;
+                            let r = run_gz(write_mode, by_path, ops, None, None, gz_file, &path, &mode, &mut buf_cell.borrow_mut(), &payload)?;
                             if !r.opened {
                                 return Err("could not open".into());
                             }
@@ -644,12 +646,12 @@ pub fn run(ctx: &mut Ctx) {
                         for from in [false, true] {
                             ctx.case(
                                 "gz-fault",
-                                || format!("gz {} via {} ; {ops:?} ; {} request {k} of {n}", if write_mode { "write" } else { "read" }, if by_path { "gzopen" } else { "gzdopen" }, if from { "failing every allocation from" } else { "failing only allocation" }),
+                                || format!("gz {} [{vname}] via {} ; {ops:?} ; {} request {k} of {n}", if write_mode { "write" } else { "read" }, if by_path { "gzopen" } else { "gzdopen" }, if from { "failing every allocation from" } else { "failing only allocation" }),
                                 |c| {
                                     c.exec();
                                     c.nontrivial();
                                     prepare(&path_str);
-                                    let r = run_gz(write_mode, by_path, ops, if from { None } else { Some(k) }, if from { Some(k) } else { None }, &gz_file, &path, &mode, &mut buf_cell.borrow_mut(), &payload)?;
+                                    let r = run_gz(write_mode, by_path, ops, if from { None } else { Some(k) }, if from { Some(k) } else { None }, gz_file, &path, &mode, &mut buf_cell.borrow_mut(), &payload)?;
                                     c.outcome(mix(r.requests, mix(k, (from as u64) << 1 | r.opened as u64)));
                                     c.state(hash_u32s(&[r.opened as u32, from as u32, write_mode as u32]));
                                     c.validated();
@@ -661,6 +663,7 @@ pub fn run(ctx: &mut Ctx) {
                 }
                 let _ = std::fs::remove_file(&path_str);
             }
+          }
         }
     }
 }
